@@ -152,7 +152,7 @@ def r06f(chk, rid='R06.f'):
             if layout == 'comment first':
                 items = [Record(value=CommM(cssText='/*c*/')), Record(value=props[0])] + [Record(value=p_) for p_ in props[1:-1]] + [Record(value=UnkM(cssText='@x;')), Record(value=props[-1]), Record(value=empty)]
             else:
-                items = [Record(value=p_) for p_ in props] + [Record(value=empty), Record(value=UnkM(cssText='@x;')), Record(value=CommM(cssText='/*c*/'))]
+                items = [Record(value=empty)] + [Record(value=p_) for p_ in props] + [Record(value=UnkM(cssText='@x;')), Record(value=CommM(cssText='/*c*/'))]
             eff = effective(props + [empty])
 
             def get_properties(name=None, all=False, props=props, empty=empty, eff=eff):  # noqa: A002
